@@ -59,6 +59,11 @@ theorem reset_fresh (s : State) : s.reset.Fresh := by
   (cases h : s.active <;>
     simp [reset, clearTxQueue_eq, stopSending, stopReceiving, emit, Timer.stop, Limiter.reset, h])
 
+/-- dropping the unread input does not touch any FSM field -/
+theorem Fresh.dropInbox {s : State} (h : s.Fresh) : ({ s with inbox := [] } : State).Fresh := by
+  obtain ⟨h1, h2, h3, h4, h5, h6, h7, h8, h9, h10, h11, h12, h13, h14, h15, h16, h17, h18, h19, h20⟩ := h
+  exact ⟨h1, h2, h3, h4, h5, h6, h7, h8, h9, h10, h11, h12, h13, h14, h15, h16, h17, h18, h19, h20⟩
+
 theorem init_fresh (c : Cfg) (a : Addr) : (State.init c a).Fresh := by
   constructor <;> simp [State.init]
 
@@ -552,25 +557,29 @@ def Reachable (c : Cfg) (a : Addr) (t : TL) : Prop := ∃ sched : List Step, t =
 theorem stop_exc (t : TL) : t.stop.2 = none := rfl
 
 /-- `stop()` in closed form: everything is at its constructor value except the logic layer (reset
-    once by the exiting worker when there is one, once by `stop` itself) and the bus -/
+    once by the exiting worker when there is one, once by `stop` itself, unread input dropped) and the bus -/
 theorem stop_fst (t : TL) :
-    t.stop.1 = { core := (if t.mainThread = .running then t.core.reset else t.core).reset, bus := t.bus } := by
+    t.stop.1 = { core := { (if t.mainThread = .running then t.core.reset else t.core).reset with inbox := [] },
+                 bus := t.bus } := by
   simp only [stop, workerExit]
   split <;> rfl
 
 theorem stop_core_fresh (t : TL) : t.stop.1.core.Fresh := by
-  rw [stop_fst]; exact State.reset_fresh _
+  rw [stop_fst]; exact (State.reset_fresh _).dropInbox
+
+/-- the unread input of the logic layer is dropped (the Python `stop()` drains `rx_relay_queue`) -/
+theorem stop_inbox (t : TL) : t.stop.1.core.inbox = [] := by rw [stop_fst]
 
 theorem stop_clean (t : TL) : t.stop.1.clean = true := by
   have h := stop_core_fresh t
-  simp [clean, h.rxState, h.txState, h.txQueue, h.rxQueue, h.active]
+  simp [clean, h.rxState, h.txState, h.txQueue, h.rxQueue, h.active, stop_inbox]
   simp [stop_fst, Events.cleared]
 
 theorem stop_log (t : TL) : t.stop.1.core.log = t.core.resetEvents ++ t.core.log := by
   rw [stop_fst]
   by_cases h : t.mainThread = .running
-  · simp only [h, if_true]; rw [State.reset_reset_log, State.reset_log]
-  · simp only [h, if_false]; rw [State.reset_log]
+  · simp only [h, if_true]; show t.core.reset.reset.log = _; rw [State.reset_reset_log, State.reset_log]
+  · simp only [h, if_false]; show t.core.reset.log = _; rw [State.reset_log]
 
 theorem stop_completes_requests (t : TL) (r : Req) (h : r ∈ t.core.txQueue ∨ t.core.active = some r) :
     Ev.done r.id false ∈ t.stop.1.core.log := by
@@ -621,8 +630,8 @@ def stopBegin (t : TL) : TL :=
 
 /-- the rest of `stop()` once the joins have returned -/
 def stopEnd (t : TL) : TL :=
-  { t with mainThread := .none, relayThread := .none, ev := Events.cleared, core := t.core.reset,
-           relayQ := [], rxfnIsRelay := false, started := false }
+  { t with mainThread := .none, relayThread := .none, ev := Events.cleared,
+           core := { t.core.reset with inbox := [] }, relayQ := [], rxfnIsRelay := false, started := false }
 
 theorem stop_eq_join (t : TL) : t.stop.1 = stopEnd (workerStep (relayStep (stopBegin t))) ∧
     t.stop.1 = stopEnd (relayStep (workerStep (stopBegin t))) := by
